@@ -90,6 +90,34 @@ class PlanSuite:
             if i % 4 == 0 and mode in ("log", "linear"):
                 for dev in ("evo", "fluent"):
                     cases.append(dict(case, k="towl", dev=dev, exec=exec_params(rng, R, C)))
+        # boundary values of min_transfer: where the rows of a serially diluted column disagree about feasibility
+        import math as _m
+
+        nb = 150 if tier == "quick" else 4000
+        for _ in range(nb):
+            R = rng.choice([2, 3, 4, 8])
+            C = rng.choice([3, 4, 6, 8, 12])
+            stock = rng.choice([10, 100, 1000])
+            xmax = stock * rng.choice([1, 1, 0.5])
+            xmin = xmax * rng.choice([0.1, 0.01, 0.001, 0.0001])
+            vmax = rng.choice([100, 200, 950, 1000])
+            N = R * C
+            ideal = [_m.exp(_m.log(xmax) + (_m.log(xmin) - _m.log(xmax)) * i / (N - 1)) for i in range(N)]
+            cols = [[Fraction(ideal[c * R + r]) for r in range(R)] for c in range(C)]
+            try:
+                ins, xs, _ = exact_plan(cols, Fraction(stock), [Fraction(vmax)] * C, Fraction(1))
+            except ZeroDivisionError:
+                continue
+            cands = set()
+            for c, ds, src, vt in ins:
+                if src is not None and len(set(vt)) > 1:
+                    cands |= {min(vt) + 1, max(vt), max(vt) + 1}
+                elif len(set(vt)) > 1:
+                    cands |= {max(vt), min(vt) + 1}
+            for mt in sorted(cands)[:4]:
+                if mt >= 1:
+                    cases.append({"k": "plan", "xmin": frac_float(Fraction(xmin)), "xmax": frac_float(Fraction(xmax)), "R": R, "C": C,
+                                  "stock": str(stock), "mode": "log", "vmax": {"shape": "scalar", "v": str(vmax)}, "min_transfer": str(mt)})
         # the parameter sets of the known findings (F11a / F11b) and of the repository's own tests
         for extra in KNOWN_PARAMS:
             cases.append(dict(extra, k="plan"))
@@ -145,7 +173,19 @@ class PlanSuite:
         if case["k"] == "plan" or plan is None:
             return out
         # ---- execution
-        ex = case["exec"]
+        ex = dict(case["exec"])
+        if ex.get("stock_exact"):
+            # fill the stock column with exactly v_stock: the last transfer empties it
+            lab = [dict(s) for s in ex["labware"]]
+            st = lab[ex["stock"]]
+            if st["cols"] == 1:
+                st["init"] = {"shape": "scalar", "v": frac_str(Fraction(float(plan.v_stock)))}
+            else:
+                vals = ["0"] * st["cols"]
+                vals[ex["stock_column"]] = frac_str(Fraction(float(plan.v_stock)))
+                st["init"] = {"shape": "list", "v": vals}
+            ex["labware"] = lab
+        out["exec_used"] = ex
         lws = [progbase.build_labware(s) for s in ex["labware"]]
         wl = progbase.build_worklist(case["dev"], ex["wl"])
         mix_vol = min(wl.max_volume, float(plan.vmax[0]) * to_float(ex["mix_volume"]))
@@ -195,7 +235,7 @@ class PlanSuite:
                 out = ("(Ok {| po_instr := %s; po_x := %s; po_v_stock := %s; po_v_diluent := %s; po_max_steps := %d |})"
                        % (ins, xs, cz(int(Fraction(obs["v_stock"]))), cq(obs["v_diluent"]), obs["max_steps"]))
             return f"(KPlan {sg} {mo} {case['R']} {case['C']} {vm} {ideal} {cq(case['stock'])} {cq(case['min_transfer'])} {out})"
-        ex = case["exec"]
+        ex = obs.get("exec_used") or case["exec"]
         t = obs["towl"]
         dev = {"evo": "Evo", "fluent": "Fluent"}[case["dev"]]
         a = ("{| tw_R := nat_ %d; tw_stock := nat_ %d; tw_stock_column := nat_ %d; tw_diluent := nat_ %d; tw_diluent_column := nat_ %d; "
@@ -288,8 +328,12 @@ class PlanSuite:
         # execution
         if case["k"] == "towl" and "towl" in obs and case["exec"].get("sufficient"):
             t = obs["towl"]
-            ex = case["exec"]
-            if t["err"]:
+            ex = obs.get("exec_used") or case["exec"]
+            vdest = Fraction(ex.get("v_destination", "0")) if ex.get("dest") is not None else Fraction(0)
+            enough = all(drawn.get((c, r), 0) + vdest <= vmaxl[c] for c in range(C) for r in range(R))
+            if not enough:
+                pass  # the request itself over-draws a column (budget finding or too large v_destination): not judged here
+            elif t["err"]:
                 bad.append(f"exec: to_worklist raised {t['exc']} on sufficiently large labware")
             else:
                 plate = ex["plate"]
@@ -347,7 +391,8 @@ def exec_params(rng, R, C, big=False):
           "diluent_column": rng.randrange(labware[1]["cols"]), "plate": 2,
           "wl": {"max_volume": rng.choice(["950", "950", "1000", "200", "500"]), "max_int": rng.random() < 0.5, "auto_split": True, "diti_mode": False},
           "mix_threshold": rng.choice(["1/16", "1/32", "1/2", "0"]), "mix_wash": rng.choice([1, 2, 3, "flush", "reuse"]),
-          "mix_repeat": rng.choice([0, 1, 2, 2, 3]), "mix_volume": rng.choice(["3/4", "1/2", "1/4", "7/8"]), "sufficient": suff}
+          "mix_repeat": rng.choice([0, 1, 2, 2, 3]), "mix_volume": rng.choice(["3/4", "1/2", "1/4", "7/8", "1", "1"]), "sufficient": suff,
+          "stock_exact": rng.random() < 0.3}
     if labware[0]["cols"] > 1:
         ex["stock_component"] = "stock.column_%02d" % (ex["stock_column"] + 1)
     else:
